@@ -177,6 +177,24 @@ func c14Routing(c *Ctx) {
 						for _, w := range wantMsg {
 							okM = okM || len(parts) == 2 && parts[1] == w
 						}
+						if !okM && len(parts) == 2 && !strings.HasPrefix(parts[1], "getMessage(") && !strings.HasPrefix(parts[1], "getMessageln(") {
+							// the message functions written out in place: built from exactly the parameters that make up
+							// the message of this family (how is R14.4's business), and from no other
+							need := map[string]bool{}
+							switch suf {
+							case "", "ln", "w":
+								need[PN(ps[0])] = true
+							case "f":
+								need[PN(ps[0])], need[PN(ps[1])] = true, true
+							}
+							okM = true
+							for _, q := range fn.Params[1:] {
+								has := replaceWord(parts[1], PN(q), "\x00") != parts[1]
+								if has != need[PN(q)] {
+									okM = false
+								}
+							}
+						}
 						if !okL || !okM {
 							bad = append(bad, t)
 						}
